@@ -37,6 +37,10 @@ pub enum HOp
     DeleteTable,
     BuildCleanBuild(Option<String>),
     /* the user copies a target aside (a new file) ... */
+    /* the user removes every empty directory that exists only to hold targets (after a clean: `rmdir out gen/sub gen bin`) ... */
+    RemoveTargetDirs,
+    /* ... and makes them again */
+    MakeTargetDirs,
     StashTarget(String),
     /* ... and later moves the stashed copy back over the target, as `mv` does: the file keeps its older modification time */
     UnstashOver(String),
@@ -277,8 +281,15 @@ impl HistRun
         {
             let leaves = self.current_leaves();
             let targets = self.current_targets();
-            match rng.below(8)
+            match rng.below(9)
             {
+                8 =>
+                {
+                    // everything cleaned away, the emptied directories removed as well, builds attempted in that state, the
+                    // directories made again
+                    let g = if rng.chance(1, 3) { self.random_goal(rng) } else { None };
+                    self.queue.extend(vec![HOp::Build(None), HOp::Clean(g), HOp::RemoveTargetDirs, HOp::Build(None), HOp::BuildAgain, HOp::MakeTargetDirs, HOp::Build(None)]);
+                },
                 0 if leaves.len() > 0 =>
                 {
                     let l = leaves[rng.below(leaves.len())].clone();
@@ -429,7 +440,7 @@ impl HistRun
             HOp::PoisonFail(l) =>
             {
                 w.counter += 1;
-                let c = if w.counter % 4 == 0 { format!("!FAILSIG v{}", w.counter) } else { format!("!FAIL v{}", w.counter) }.into_bytes();
+                let c = match w.counter % 5 { 0 => format!("!FAILSIG v{}", w.counter), 1 => format!("!FAILEXEC v{}", w.counter), _ => format!("!FAIL v{}", w.counter) }.into_bytes();
                 w.write_leaf(l, c);
                 // a poison version is not something to revert to
                 if let Some(v) = w.leaf_versions.get_mut(l) { v.pop(); }
@@ -447,6 +458,16 @@ impl HistRun
                 let c = format!("!FAILSTEP:{} v{}", k, w.counter).into_bytes();
                 w.write_leaf(l, c);
                 if let Some(v) = w.leaf_versions.get_mut(l) { v.pop(); }
+            },
+            HOp::RemoveTargetDirs =>
+            {
+                w.sys.tick();
+                for d in ["gen/sub", "gen", "out", "bin"] { w.sys.user_rmdir(d); }
+                w.fresh_build = None;
+            },
+            HOp::MakeTargetDirs =>
+            {
+                for d in ["gen/sub", "gen", "out", "bin"] { w.sys.user_mkdirs(d); }
             },
             HOp::StashTarget(t) =>
             {
@@ -798,7 +819,16 @@ pub fn run_history(rng : &mut Rng, run : &mut HistRun, prop : &str, tally : &mut
         for (kind, goal) in invocations
         {
             let choice = run.sched();
+            let broken = run.world.env_broken();
             let obs = if kind == "build" { run.world.invoke_build(goal.clone(), &choice) } else { run.world.invoke_clean(goal.clone(), &choice) };
+            if obs.report.step_exceeded && prop == "C05"
+            {
+                // bounded progress: an invocation on these graphs takes a few hundred to a few thousand scheduler steps (every
+                // System call and channel operation is one step, retry loops are bounded by 100 attempts); not finishing
+                // within 400 000 steps under a fair scheduler is a loop that does not end
+                found.push(Violation::new("C05", "no-termination-within-step-bound", format!("{} did not finish within {} scheduler steps", kind, obs.report.steps)));
+                break;
+            }
             if obs.report.step_exceeded || obs.report.replay_diverged
             {
                 found.push(Violation::new("INCONCLUSIVE", "step-bound", "scheduler step bound exceeded".to_string()));
@@ -893,6 +923,12 @@ pub fn run_history(rng : &mut Rng, run : &mut HistRun, prop : &str, tally : &mut
                 ]));
             }
 
+            if broken
+            {
+                // a target directory is missing: the model does not describe that state; what must hold regardless is kept
+                v.retain(|x| match x.property.as_str() { "C05" | "C07" | "C08" | "C09" | "INCONCLUSIVE" => true, _ => false });
+                tally.counts.inc("invocations_with_a_target_directory_missing");
+            }
             run.world.absorb(&obs);
             if kind == "build"
             {
